@@ -9,7 +9,7 @@ from .core import (Val, Unsupported, TPoison, T_EMPTY, T_LAMBDA, T_CLASS, T_BUIL
                    T_MODULE, T_ITER, SPECIAL_KINDS, MUTATORS, zbool, zand, zor, znot, is_true, is_false, State)
 
 BUILTIN_NAMES = {
-    "len", "list", "set", "filter", "map", "sorted", "sum", "all", "any", "min", "max", "enumerate", "range",
+    "reversed", "len", "list", "set", "filter", "map", "sorted", "sum", "all", "any", "min", "max", "enumerate", "range",
     "int", "float", "str", "isinstance", "super", "abs", "print", "bool", "Exception", "open", "tuple", "zip",
 }
 MODULE_NAMES = {"np", "itertools", "datetime", "warnings", "json", "uuid", "abc", "sys"}
@@ -106,7 +106,7 @@ class ExprMixin:
             return Val(TStr, f(base.z), py=("enum_name", base))
         if k == "Enum" and attr == "value":
             return Val(TInt, base.z)
-        if k in ("List", "EmptyList", "Set", "Dict", "Str", "Date", "Delta", "Opt", "Json"):
+        if k in ("List", "EmptyList", "Set", "Dict", "Str", "Date", "Delta", "Opt", "Json", "Kwargs"):
             return Val(T_METHOD, None, py=(base, attr))
         raise Unsupported("attribute %s on %r" % (attr, base.ty), node)
 
@@ -160,6 +160,9 @@ class ExprMixin:
             raise Unsupported("timedelta operation", node)
         if ka in ("List", "EmptyList") and kb in ("List", "EmptyList") and isinstance(op, ast.Add):
             return self.list_concat(a, b, node)
+        if ka == "Tuple" and kb == "Tuple" and isinstance(op, ast.Add):
+            return self.mk_tuple([self.tuple_get(a, i) for i in range(len(a.ty.elems))] +
+                                 [self.tuple_get(b, i) for i in range(len(b.ty.elems))])
         x, y, t = self.num_unify(a, b, node)
         if isinstance(op, ast.Add):
             return Val(t, x.z + y.z)
@@ -171,7 +174,7 @@ class ExprMixin:
             xr, yr = self.coerce(x, TReal), self.coerce(y, TReal)
             self.oblige("safe", "div-zero", yr.z != 0, st, node)
             ys = z3.simplify(yr.z)
-            if z3.is_rational_value(ys):
+            if z3.is_rational_value(ys) or self.mode == "UNROLL":
                 return Val(TReal, xr.z / yr.z)
             # division by a non-constant stays uninterpreted (x / 1 == x is the only fact used)
             f = self.uf("nl_div", z3.RealSort(), z3.RealSort(), z3.RealSort())
@@ -194,6 +197,12 @@ class ExprMixin:
         keeps every obligation in linear arithmetic (DESIGN 6/C02: `w*f` products are opaque per pair)"""
         xs, ys = z3.simplify(x), z3.simplify(y)
         if z3.is_rational_value(xs) or z3.is_int_value(xs) or z3.is_rational_value(ys) or z3.is_int_value(ys):
+            return x * y
+        if self.mode == "UNROLL":
+            # quantifier-free bounded instances: native (non-linear) arithmetic, so that counter-models are found
+            if x.sort() != y.sort():
+                x = z3.ToReal(x) if z3.is_int(x) else x
+                y = z3.ToReal(y) if z3.is_int(y) else y
             return x * y
         if x.sort() != y.sort():
             x = z3.ToReal(x) if z3.is_int(x) else x
@@ -301,6 +310,15 @@ class ExprMixin:
             return e if isinstance(op, ast.In) else z3.Not(e)
         if a.ty.kind == "Tuple" and b.ty.kind == "Tuple":
             return self.lex_compare(op, a, b, node)
+        if a.ty.kind == "Set" and b.ty.kind == "Set":
+            if isinstance(op, ast.LtE):
+                return self.set_subset(a, b, node)
+            if isinstance(op, ast.GtE):
+                return self.set_subset(b, a, node)
+            if isinstance(op, ast.Lt):
+                return z3.And(self.set_subset(a, b, node), z3.Not(self.set_subset(b, a, node)))
+            if isinstance(op, ast.Gt):
+                return z3.And(self.set_subset(b, a, node), z3.Not(self.set_subset(a, b, node)))
         x, y, t = self.num_unify(a, b, node)
         if isinstance(op, ast.Lt):
             return x.z < y.z
@@ -385,6 +403,42 @@ class ExprMixin:
         for i, v in enumerate(vals):
             arr = z3.Store(arr, i, self.coerce(v, t, node).z)
         return self.mk_list(lt, z3.IntVal(len(vals)), arr)
+
+    def ev_Set(self, node, st):
+        vals = [self.ev(e, st) for e in node.elts]
+        t = vals[0].ty
+        for v in vals[1:]:
+            t = self.unify(t, v.ty)
+        if t.kind == "Poison":
+            raise Unsupported("heterogeneous set literal", node)
+        arr = z3.K(self.S.sort(t), False)
+        for v in vals:
+            arr = z3.Store(arr, self.coerce(v, t, node).z, True)
+        return Val(TSet(t), arr)
+
+    def ev_SetComp(self, node, st):
+        lst = self.realize(self.comp_view(node, st), st, node)
+        return self.bi_set([lst], {}, st, node)
+
+    def set_universe(self, t):
+        """finite universe of a set's element type, if any"""
+        if t.kind == "Enum" and t.name in self.src.classes:
+            return [z3.IntVal(v) for v in sorted(set(self.src.classes[t.name].enum_members.values()))]
+        if t.kind == "Bool":
+            return [z3.BoolVal(True), z3.BoolVal(False)]
+        if t.kind == "Ref" and self.S.ref_consts is not None:
+            return [self.S.null] + list(self.S.ref_consts)
+        return None
+
+    def set_subset(self, a, b, node=None):
+        t = self.unify(a.ty, b.ty)
+        if t.kind != "Set":
+            raise Unsupported("set comparison of %r and %r" % (a.ty, b.ty), node)
+        uni = self.set_universe(t.elem)
+        if uni is not None:
+            return z3.And(*[z3.Implies(z3.Select(a.z, u), z3.Select(b.z, u)) for u in uni])
+        x = self.qvar("x", self.S.sort(t.elem))
+        return z3.ForAll([x], z3.Implies(z3.Select(a.z, x), z3.Select(b.z, x)))
 
     def ev_Tuple(self, node, st):
         return self.mk_tuple([self.ev(e, st) for e in node.elts])
@@ -567,6 +621,13 @@ class ExprMixin:
             if tag == "enumerate":
                 n, g, _ = self.as_view(v.py[1], st, node)
                 return n, (lambda i: self.mk_tuple([Val(TInt, i if z3.is_expr(i) else z3.IntVal(i)), g(i)])), None
+            if tag == "reversed":
+                n, g, et = self.as_view(v.py[1], st, node)
+                return n, (lambda i: g(n - 1 - i)), et
+            if tag == "zip":
+                n1, g1, _ = self.as_view(v.py[1], st, node)
+                n2, g2, _ = self.as_view(v.py[2], st, node)
+                return z3.If(n1 <= n2, n1, n2), (lambda i: self.mk_tuple([g1(i), g2(i)])), None
             if tag == "range":
                 lo, hi = v.py[1], v.py[2]
                 n = z3.If(hi > lo, hi - lo, 0)
@@ -627,6 +688,7 @@ class ExprMixin:
             raise Unsupported("list of None", node)
         lt = TList(et)
         if self.mode == "UNROLL":
+            self.assume(n <= self.bound, st)       # unwinding assumption (bounded stand-in)
             arr = self.empty_array(self.S.sort(et))
             for i in range(self.bound):
                 ii = z3.IntVal(i)
@@ -678,6 +740,7 @@ class ExprMixin:
         n = self.list_len(src)
         lt = src.ty
         if self.mode == "UNROLL":
+            self.assume(n <= self.bound, st)       # unwinding assumption (bounded stand-in)
             arr = self.empty_array(self.S.sort(lt.elem))
             cnt = z3.IntVal(0)
             for i in range(self.bound):
